@@ -162,6 +162,12 @@ impl NamespaceStates {
         }
     }
 
+    /// Verification hook: the `may_emit_ready` flag of a namespace (read only).
+    #[cfg(iroh_docs_verif)]
+    pub fn verif_may_emit_ready(&self, namespace: &NamespaceId) -> Option<bool> {
+        self.0.get(namespace).map(|s| s.may_emit_ready)
+    }
+
     /// Verification hook: `(state, resync_requested)` for a namespace and node; state 0 = idle,
     /// 1 = running (connect), 2 = running (accept). `None` if the namespace is not syncing.
     #[cfg(iroh_docs_verif)]
